@@ -199,9 +199,9 @@ Section Fix.
   Qed.
 End Fix.
 
-(* ------------------------------------------------------------------ the text-level side condition of rules, in general.
-   NOT proved (it needs `split_ws (join_sp ws) = ws` for blank-free words and the keyword bookkeeping of the state machine);
-   `rule_text_ok` is a hypothesis of the rule / block / engine theorems and is discharged by computation on concrete rules. *)
+(* ------------------------------------------------------------------ the text-level side condition of rules, in general:
+   proved below (rule_text_roundtrip, rule_text_roundtrip_full_holds) from `split_ws (join_sp ws) = ws` for blank-free words
+   and the keyword bookkeeping of the state machine of Rule.parse. *)
 Definition rule_text_roundtrip_full : Prop :=
   forall (T : Type) (N : Num T) (E : penv T) (r : prule T),
     let word_ok := fun w => is_word w = true /\ raw_safe w = true in
@@ -209,3 +209,204 @@ Definition rule_text_roundtrip_full : Prop :=
     ru_consequent r <> [] -> Forall (fun w => word_ok w /\ w <> rule_with) (ru_consequent r) ->
     word_ok (fmt_w E (ru_weight r)) -> parse_w E (fmt_w E (ru_weight r)) = Some (ru_weight r) ->
     rule_text_ok E r.
+
+(* ------------------------------------------------------------------ rule texts: Rule.text -> Rule.parse *)
+Section StringLemmas.
+  Lemma str_app_nil_r : forall s, (s ++ "")%string = s.
+  Proof. induction s as [|c s IH]; cbn; [reflexivity|]. rewrite IH. reflexivity. Qed.
+  Lemma str_app_assoc : forall a b c, ((a ++ b) ++ c)%string = (a ++ (b ++ c))%string.
+  Proof. induction a as [|x a IH]; intros b c; cbn; [reflexivity|]. rewrite IH. reflexivity. Qed.
+  Lemma string_forallb_app : forall p a b, string_forallb p (a ++ b)%string = string_forallb p a && string_forallb p b.
+  Proof. induction a as [|c a IH]; intros b; cbn; [reflexivity|]. rewrite IH. destruct (p c); reflexivity. Qed.
+  Lemma string_forallb_join : forall p ws, p " "%char = true -> Forall (fun w => string_forallb p w = true) ws ->
+    string_forallb p (join_sp ws) = true.
+  Proof.
+    intros p ws Hsp H. induction H as [|w ws Hw Hws IH]; [reflexivity|].
+    destruct ws as [|w2 ws]; [exact Hw|].
+    change (join_sp (w :: w2 :: ws)) with (w ++ " " ++ join_sp (w2 :: ws))%string.
+    rewrite !string_forallb_app, Hw, IH. cbn. rewrite Hsp. reflexivity.
+  Qed.
+  Lemma string_forallb_impl : forall (p q : ascii -> bool) s, (forall c, p c = true -> q c = true) ->
+    string_forallb p s = true -> string_forallb q s = true.
+  Proof.
+    induction s as [|c s IH]; intros Hpq H; [reflexivity|]. cbn in *. apply andb_prop in H. destruct H as [H1 H2].
+    rewrite (Hpq c H1), (IH Hpq H2). reflexivity.
+  Qed.
+  Lemma before_hash_id : forall s, string_forallb (fun c => negb (Ascii.eqb c hash_char)) s = true -> before_hash s = s.
+  Proof.
+    induction s as [|c s IH]; intros H; [reflexivity|]. cbn in *. apply andb_prop in H. destruct H as [H1 H2].
+    destruct (Ascii.eqb c hash_char); [discriminate|]. rewrite (IH H2). reflexivity.
+  Qed.
+  (* a blank-free non-empty word in front of the end of the text or of a blank is one token *)
+  Definition no_ws (w : string) : bool := string_forallb (fun c => negb (is_ws c)) w.
+  Lemma split_ws_word : forall w r, w <> ""%string -> no_ws w = true ->
+    (r = ""%string \/ exists c r', r = String c r' /\ is_ws c = true) ->
+    split_ws (w ++ r)%string = w :: split_ws r.
+  Proof.
+    induction w as [|c w IH]; intros r Hne Hw Hr; [contradiction|].
+    unfold no_ws in Hw. cbn in Hw. apply andb_prop in Hw. destruct Hw as [Hc Hw]. apply negb_true_iff in Hc.
+    destruct w as [|c2 w].
+    - cbn [append]. cbn [split_ws]. rewrite Hc. destruct Hr as [->|[c' [r' [-> Hws]]]]; [reflexivity|]. rewrite Hws. reflexivity.
+    - assert (IH' : split_ws (String c2 w ++ r)%string = String c2 w :: split_ws r) by (apply IH; [discriminate|exact Hw|exact Hr]).
+      change ((String c (String c2 w) ++ r)%string) with (String c (String c2 (w ++ r))%string).
+      cbn [split_ws]. rewrite Hc.
+      cbn in Hw. apply andb_prop in Hw. destruct Hw as [Hc2 _]. apply negb_true_iff in Hc2. rewrite Hc2.
+      change (String c2 (w ++ r)%string) with ((String c2 w ++ r)%string) in *.
+      change (split_ws (String c2 w ++ r)%string) with (split_ws (String c2 (w ++ r)%string)) in IH'.
+      cbn [split_ws] in IH'. rewrite Hc2 in IH'. rewrite IH'. reflexivity.
+  Qed.
+  Lemma split_join : forall ws, Forall (fun w => w <> ""%string /\ no_ws w = true) ws -> split_ws (join_sp ws) = ws.
+  Proof.
+    induction 1 as [|w ws [Hne Hw] Hws IH]; [reflexivity|].
+    destruct ws as [|w2 ws].
+    - cbn [join_sp]. rewrite <- (str_app_nil_r w) at 1. rewrite split_ws_word; auto.
+    - change (join_sp (w :: w2 :: ws)) with (w ++ String " "%char (join_sp (w2 :: ws)))%string.
+      rewrite split_ws_word; auto.
+      + cbn [split_ws]. change (is_ws " "%char) with true. cbn iota. rewrite IH. reflexivity.
+      + right. eexists _, _. split; reflexivity.
+  Qed.
+  Lemma join_sp_flat : forall a rest, a <> [] -> join_sp (join_sp a :: rest) = join_sp (a ++ rest).
+  Proof.
+    induction a as [|w a IH]; intros rest Hne; [contradiction|].
+    destruct a as [|w2 a]; [reflexivity|].
+    change (join_sp (w :: w2 :: a)) with (w ++ " " ++ join_sp (w2 :: a))%string.
+    change ((w :: w2 :: a) ++ rest) with (w :: (w2 :: a) ++ rest).
+    assert (IH' := IH rest ltac:(discriminate)).
+    destruct rest as [|r rest].
+    - rewrite app_nil_r. reflexivity.
+    - change (join_sp (w :: (w2 :: a) ++ r :: rest)) with (w ++ " " ++ join_sp ((w2 :: a) ++ r :: rest))%string.
+      rewrite <- IH'.
+      change (join_sp ((w ++ " " ++ join_sp (w2 :: a))%string :: r :: rest)) with ((w ++ " " ++ join_sp (w2 :: a)) ++ " " ++ join_sp (r :: rest))%string.
+      change (join_sp (join_sp (w2 :: a) :: r :: rest)) with (join_sp (w2 :: a) ++ " " ++ join_sp (r :: rest))%string.
+      rewrite !str_app_assoc. reflexivity.
+  Qed.
+End StringLemmas.
+
+Section RuleText.
+  Context {T : Type} {N : Num T}.
+  Variable E : penv T.
+
+  (* the computable side condition on the words of a rule *)
+  Definition token_ok (w : string) : bool := is_word w && raw_safe w.
+  Definition rule_tokens_ok (r : prule T) : bool :=
+    match ru_antecedent r, ru_consequent r with
+    | _ :: _, _ :: _ =>
+        forallb (fun w => token_ok w && negb (String.eqb w rule_then)) (ru_antecedent r)
+        && forallb (fun w => token_ok w && negb (String.eqb w rule_with)) (ru_consequent r)
+    | _, _ => false
+    end.
+  (* Op.str / float() round-trip of the weight (only needed when the weight is printed) *)
+  Definition weight_ok (r : prule T) : Prop :=
+    is_close E (ru_weight r) (lit 1 0) = false ->
+    token_ok (fmt_w E (ru_weight r)) = true /\ parse_w E (fmt_w E (ru_weight r)) = Some (ru_weight r).
+
+  Lemma token_ok_parts : forall w, token_ok w = true ->
+    w <> ""%string /\ no_ws w = true /\ string_forallb (fun c => negb (Ascii.eqb c hash_char)) w = true /\ raw_safe w = true.
+  Proof.
+    intros w H. unfold token_ok in H. apply andb_prop in H. destruct H as [Hw Hr].
+    unfold is_word in Hw. destruct w as [|c w]; [discriminate|]. split; [discriminate|].
+    split; [|split; [|exact Hr]].
+    - eapply string_forallb_impl; [|exact Hw]. intros x Hx. unfold word_char_ok in Hx. apply andb_prop in Hx. tauto.
+    - eapply string_forallb_impl; [|exact Hw]. intros x Hx. unfold word_char_ok in Hx. apply andb_prop in Hx. tauto.
+  Qed.
+  Lemma keywords_ok : token_ok rule_if = true /\ token_ok rule_then = true /\ token_ok rule_with = true.
+  Proof. repeat split; reflexivity. Qed.
+
+  Lemma fsm_then_plain : forall cq, Forall (fun w => String.eqb w rule_with = false) cq -> fsm_then E cq = Ok (cq, None).
+  Proof. induction 1 as [|w cq Hw _ IH]; cbn [fsm_then]; [reflexivity|]. rewrite Hw, IH. reflexivity. Qed.
+  Lemma fsm_then_weight : forall cq fw w, Forall (fun x => String.eqb x rule_with = false) cq -> parse_w E fw = Some w ->
+    fsm_then E (cq ++ [rule_with; fw]) = Ok (cq, Some w).
+  Proof.
+    induction 1 as [|x cq Hx _ IH]; intros Hp; cbn [fsm_then app].
+    - rewrite String.eqb_refl, Hp. reflexivity.
+    - rewrite Hx, (IH Hp). reflexivity.
+  Qed.
+  Lemma fsm_if_then : forall ante rest, Forall (fun w => String.eqb w rule_then = false) ante ->
+    fsm_if E (ante ++ rule_then :: rest) = (do r <- fsm_then E rest; Ok (ante, r)).
+  Proof.
+    induction 1 as [|w ante Hw _ IH]; cbn [fsm_if app].
+    - rewrite String.eqb_refl. destruct (fsm_then E rest); reflexivity.
+    - rewrite Hw, IH. destruct (fsm_then E rest); reflexivity.
+  Qed.
+
+  Theorem rule_text_roundtrip : forall r, rule_tokens_ok r = true -> weight_ok r -> rule_text_ok E r.
+  Proof.
+    intros [en w ante cq l d t] Htok Hw. unfold rule_tokens_ok, weight_ok, rule_text_ok, rule_words in *.
+    cbn [ru_antecedent ru_consequent ru_weight] in *.
+    destruct ante as [|a0 ante']; [discriminate|]. destruct cq as [|c0 cq']; [discriminate|].
+    set (ante := a0 :: ante') in *. set (cq := c0 :: cq') in *.
+    apply andb_prop in Htok. destruct Htok as [Ha Hc]. rewrite forallb_forall in Ha, Hc.
+    assert (Hante : Forall (fun x => token_ok x = true /\ String.eqb x rule_then = false) ante).
+    { apply Forall_forall. intros x Hx. specialize (Ha x Hx). apply andb_prop in Ha. destruct Ha as [H1 H2]. apply negb_true_iff in H2. auto. }
+    assert (Hcq : Forall (fun x => token_ok x = true /\ String.eqb x rule_with = false) cq).
+    { apply Forall_forall. intros x Hx. specialize (Hc x Hx). apply andb_prop in Hc. destruct Hc as [H1 H2]. apply negb_true_iff in H2. auto. }
+    destruct keywords_ok as [Kif [Kthen Kwith]].
+    set (tail := if is_close E w (lit 1 0) then [] else [rule_with; fmt_w E w]).
+    assert (Hflat2 : join_sp (rule_if :: ante ++ rule_then :: join_sp cq :: tail) = join_sp (rule_if :: ante ++ rule_then :: cq ++ tail)).
+    { assert (G : forall pre, join_sp (pre ++ join_sp cq :: tail) = join_sp (pre ++ cq ++ tail)).
+      { induction pre as [|x pre IHp]; [cbn [app]; exact (@join_sp_flat cq tail ltac:(subst cq; discriminate))|].
+        cbn [app]. destruct pre as [|y pre].
+        - cbn [app] in *. change (join_sp (x :: join_sp cq :: tail)) with (x ++ " " ++ join_sp (join_sp cq :: tail))%string.
+          rewrite IHp. subst cq. reflexivity.
+        - cbn [app] in *. change (join_sp (x :: y :: pre ++ join_sp cq :: tail)) with (x ++ " " ++ join_sp (y :: pre ++ join_sp cq :: tail))%string.
+          rewrite IHp. reflexivity. }
+      specialize (G (rule_if :: ante ++ [rule_then])). rewrite <- !app_comm_cons, <- !app_assoc in G. exact G. }
+    assert (Hall : Forall (fun x => token_ok x = true) (rule_if :: ante ++ rule_then :: cq ++ tail)).
+    { constructor; [exact Kif|]. apply Forall_app. split; [eapply Forall_impl; [|exact Hante]; intros x [Hx _]; exact Hx|].
+      constructor; [exact Kthen|]. apply Forall_app. split; [eapply Forall_impl; [|exact Hcq]; intros x [Hx _]; exact Hx|].
+      subst tail. destruct (is_close E w (lit 1 0)) eqn:Hcl; [constructor|].
+      destruct (Hw eq_refl) as [Hf _]. repeat constructor; assumption. }
+    assert (Htext : join_sp ([rule_if; join_sp ante; rule_then; join_sp cq] ++ tail) = join_sp (rule_if :: ante ++ rule_then :: cq ++ tail)).
+    { rewrite <- Hflat2.
+      change ([rule_if; join_sp ante; rule_then; join_sp cq] ++ tail) with (rule_if :: join_sp ante :: (rule_then :: join_sp cq :: tail)).
+      destruct (rule_then :: join_sp cq :: tail) as [|z zs] eqn:Hz; [discriminate|].
+      change (join_sp (rule_if :: join_sp ante :: z :: zs)) with (rule_if ++ " " ++ join_sp (join_sp ante :: z :: zs))%string.
+      rewrite (@join_sp_flat ante (z :: zs) ltac:(subst ante; discriminate)).
+      subst ante. reflexivity. }
+    fold tail. rewrite Htext. split.
+    - apply string_forallb_join; [reflexivity|]. eapply Forall_impl; [|exact Hall]. intros x Hx. apply token_ok_parts in Hx. tauto.
+    - unfold rule_parse. rewrite before_hash_id.
+      2:{ apply string_forallb_join; [reflexivity|]. eapply Forall_impl; [|exact Hall]. intros x Hx. apply token_ok_parts in Hx. tauto. }
+      rewrite split_join.
+      2:{ eapply Forall_impl; [|exact Hall]. intros x Hx. apply token_ok_parts in Hx. tauto. }
+      rewrite String.eqb_refl. rewrite fsm_if_then by (eapply Forall_impl; [|exact Hante]; intros x [_ Hx]; exact Hx).
+      assert (Hcq' : Forall (fun x => String.eqb x rule_with = false) cq) by (eapply Forall_impl; [|exact Hcq]; intros x [_ Hx]; exact Hx).
+      subst tail. unfold norm_height. destruct (is_close E w (lit 1 0)) eqn:Hcl.
+      + rewrite app_nil_r, (fsm_then_plain Hcq'). subst ante cq. reflexivity.
+      + destruct (Hw eq_refl) as [_ Hp]. rewrite (fsm_then_weight _ Hcq' Hp). subst ante cq. reflexivity.
+  Qed.
+End RuleText.
+
+Section EngineTokens.
+  Context {T : Type} {N : Num T}.
+  Variable E : penv T.
+  Definition rule_side_ok (r : prule T) : Prop := rule_tokens_ok r = true /\ weight_ok E r.
+  Definition block_wf_tokens (b : pblock T) : Prop :=
+    opt_plain (bl_conjunction b) /\ opt_plain (bl_disjunction b) /\ opt_plain (bl_implication b) /\
+    match bl_activation b with Some x => activation_wf E x | None => True end /\ Forall rule_side_ok (bl_rules b).
+  (* engine_wf with the text-level hypothesis replaced by the computable condition on the rule words (+ weight round-trip) *)
+  Definition engine_wf_tokens (e : pengine T) : Prop :=
+    Forall (input_wf E) (en_inputs e) /\ Forall (output_wf E) (en_outputs e) /\ Forall block_wf_tokens (en_blocks e) /\
+    Forall (fun v => Forall (formula_ok E) (vi_terms v)) (en_inputs e) /\ Forall (fun v => Forall (formula_ok E) (vo_terms v)) (en_outputs e) /\
+    Forall (fun b => Forall (rule_loads E (map (@input_ctx T) (en_inputs e)) (map (@output_ctx T) (en_outputs e))) (bl_rules b)) (en_blocks e).
+  Lemma engine_wf_of_tokens : forall e, engine_wf_tokens e -> engine_wf E e.
+  Proof.
+    intros e [H1 [H2 [H3 [H4 [H5 H6]]]]]. repeat split; try assumption.
+    eapply Forall_impl; [|exact H3]. intros b [A [B [C [D R]]]]. repeat split; try assumption.
+    eapply Forall_impl; [|exact R]. intros r [Ht Hw]. apply rule_text_roundtrip; assumption.
+  Qed.
+End EngineTokens.
+
+(* the statement left open before (Proofs/PyReprFix.v, rule_text_roundtrip_full) holds *)
+Theorem rule_text_roundtrip_full_holds : rule_text_roundtrip_full.
+Proof.
+  intros T N E r word_ok Ha Hfa Hc Hfc Hw Hp.
+  apply rule_text_roundtrip.
+  - unfold rule_tokens_ok. destruct (ru_antecedent r) as [|a0 a] eqn:Ea; [contradiction|]. destruct (ru_consequent r) as [|c0 c] eqn:Ec; [contradiction|].
+    apply andb_true_intro. split; apply forallb_forall; intros x Hx.
+    + rewrite Forall_forall in Hfa. destruct (Hfa x Hx) as [[H1 H2] H3]. unfold token_ok. rewrite H1, H2. cbn.
+      apply negb_true_iff, String.eqb_neq, H3.
+    + rewrite Forall_forall in Hfc. destruct (Hfc x Hx) as [[H1 H2] H3]. unfold token_ok. rewrite H1, H2. cbn.
+      apply negb_true_iff, String.eqb_neq, H3.
+  - intros _. destruct Hw as [H1 H2]. unfold token_ok. rewrite H1, H2. split; [reflexivity|exact Hp].
+Qed.
